@@ -78,6 +78,9 @@ func Assert(p Parser) Parser {
 // Not asserts that the given parser p will fail.
 func Not(p Parser) Parser {
 	return func(input RollbackLexer) ([]Node, *Error) {
+		input.Snapshot()
+		defer input.Rollback()
+
 		_, pErr := p(input)
 		if pErr == nil {
 			return nil, &Error{message: "expecting error"}
